@@ -223,5 +223,9 @@ impl Imp {
 
 /// silence the default panic hook (panics are expected observations, not noise)
 pub fn quiet_panics() {
-    std::panic::set_hook(Box::new(|_| {}));
+    // panics of the library under test are expected and caught; a panic of the harness itself (its source paths are relative:
+    // `src/…`) is a defect of the machinery and must be visible
+    std::panic::set_hook(Box::new(|info| {
+        if let Some(l) = info.location() { if l.file().starts_with("src/") || std::env::var_os("RITI_HARNESS_SHOW_PANICS").is_some() { eprintln!("HARNESS PANIC at {}:{}: {}", l.file(), l.line(), info); } }
+    }));
 }
